@@ -160,7 +160,8 @@ def sdmx_settings(kind, rng=None):
     if kind == "sdmxg1":
         return st.SDMXG1Settings([0, 1], 1, 1)
     if kind == "sdmxfull":
-        return st.SDMXFullSettings()
+        # {ratio: ([pows], [n0, nd, n1, n1d])}
+        return st.SDMXFullSettings({1.0: ([0, 1], [2, 1, 1, 0]), 2.0: ([0, 1], [1, 0, 0, 0])})
     raise ValueError(kind)
 
 
